@@ -934,6 +934,69 @@ func c12RawJSON(maxLen int) *Scenario {
 	}
 }
 
+// c12LongLines: header lines and payloads whose length crosses the internal read-buffer sizes
+// (every length in a window around 4096 and 8192, plus 65536+-1): the format has no line-length
+// limit, so a long unknown field must be ignored like a short one.
+func c12LongLines(fs framingSpec, quick bool) *Scenario {
+	return &Scenario{
+		Name:       fmt.Sprintf("streams %s: header lines and bodies across buffer-size boundaries", fs.Name),
+		Params:     map[string]any{"framing": fs.Name, "line_lengths": "every total line length in [4070,4120] and [8170,8215], and 65535..65537", "positions": "long unknown field before / after Content-Length, long Content-Type parameter (lenient framings)", "fill": "'a' and a cyclic pattern containing ':' and header-like text"},
+		MemLimitMB: 16384,
+		Seq: func(r *SeqRun) {
+			ct := ""
+			if fs.MType != "" {
+				ct = "Content-Type: " + fs.MType + "\r\n"
+			}
+			var lens []int
+			for l := 4070; l <= 4120; l++ {
+				lens = append(lens, l)
+			}
+			for l := 8170; l <= 8215; l++ {
+				lens = append(lens, l)
+			}
+			lens = append(lens, 65535, 65536, 65537)
+			fill := func(n int, cyc bool) string {
+				if !cyc {
+					return strings.Repeat("a", n)
+				}
+				pat := "Content-Length: 1 ;"
+				return strings.Repeat(pat, n/len(pat)+1)[:n]
+			}
+			for _, total := range lens {
+				for _, cyc := range []bool{false, true} {
+					n := total - len("X-Pad: \r\n")
+					long := "X-Pad: " + fill(n, cyc) + "\r\n"
+					streams := []string{
+						ct + long + "Content-Length: 5\r\n\r\nhello" + ct + "Content-Length: 3\r\n\r\nabc",
+						ct + "Content-Length: 5\r\n" + long + "\r\nhello" + ct + "Content-Length: 3\r\n\r\nabc",
+						long + ct + "Content-Length: 5\r\n\r\nhello",
+					}
+					for _, st := range streams {
+						stream := []byte(st)
+						for _, mode := range []struct {
+							cuts []int
+							one  bool
+						}{{nil, false}, {[]int{4096}, false}, {[]int{total}, false}} {
+							cl := c12Judge(r, fs, stream, mode.cuts, true, mode.one, false)
+							r.Case(fs.Name+"/long/"+cl, true)
+						}
+						if r.Expired() {
+							return
+						}
+					}
+				}
+				// body of that size after a short header, followed by a second message
+				body := fill(total, false)
+				stream := []byte(ct + fmt.Sprintf("Content-Length: %d\r\n\r\n", total) + body + ct + "Content-Length: 1\r\n\r\nz")
+				cl := c12Judge(r, fs, stream, nil, true, false, false)
+				r.Case(fs.Name+"/longbody/"+cl, true)
+			}
+			_ = quick
+			r.Sample(map[string]any{"framing": fs.Name, "stream": "X-Pad: a...a (line of 4097 bytes)\r\nContent-Length: 5\r\n\r\nhello"})
+		},
+	}
+}
+
 func c12Scenarios(tier string) []*Scenario {
 	var out []*Scenario
 	q := tier == "quick"
@@ -944,7 +1007,7 @@ func c12Scenarios(tier string) []*Scenario {
 		out = append(out, c12Split(fss[0], 9), c12Split(fss[1], 9), c12Split(framingByName("Split(0xff)"), 8))
 	}
 	for _, fs := range fss[2:6] {
-		out = append(out, c12HeaderValid(fs))
+		out = append(out, c12HeaderValid(fs), c12LongLines(fs, q))
 		for _, first := range hdrTokens {
 			ml := 4
 			if !q {
